@@ -27,6 +27,11 @@ type Path struct {
 	Exit   ssa.Instruction // *ssa.Return or *ssa.Panic; nil if Cut
 	Cut    bool            // ended at a Stop block or because no edge was left
 
+	// set on paths produced by ExpandInline
+	flat   []PathInstr                   // instructions in execution order, callee bodies spliced in after their call
+	Params map[*ssa.Parameter]ssa.Value // inlined callee parameter -> argument at the call site
+	Rets   map[ssa.Value][]ssa.Value    // inlined call -> the values its callee path returned
+
 	live map[string]bool      // term -> value, currently valid atoms
 	eq   map[string]string    // term == const known
 	neq  map[string][]string  // term != consts known
@@ -72,17 +77,84 @@ func (p *Path) clone() *Path {
 // Resolve follows the phis chosen on this path.
 func (p *Path) Resolve(v ssa.Value) ssa.Value {
 	for i := 0; i < 32; i++ {
-		ph, ok := v.(*ssa.Phi)
-		if !ok {
+		switch x := v.(type) {
+		case *ssa.Phi:
+			r, ok := p.Phi[x]
+			if !ok {
+				return v
+			}
+			v = r
+		case *ssa.Parameter:
+			r, ok := p.Params[x]
+			if !ok {
+				return v
+			}
+			v = r
+		case *ssa.Extract:
+			rs, ok := p.Rets[x.Tuple]
+			if !ok || x.Index >= len(rs) {
+				return v
+			}
+			v = rs[x.Index]
+		case *ssa.Call:
+			rs, ok := p.Rets[x]
+			if !ok || len(rs) != 1 {
+				return v
+			}
+			v = rs[0]
+		default:
 			return v
 		}
-		r, ok := p.Phi[ph]
-		if !ok {
-			return v
-		}
-		v = r
 	}
 	return v
+}
+
+// nilness reports whether v is known nil / non-nil on this path (constants, fresh values, or an earlier test of the same value).
+func (p *Path) nilness(v ssa.Value, upto int) (isNil, known bool) {
+	v = p.Resolve(v)
+	switch x := v.(type) {
+	case *ssa.Const:
+		return x.Value == nil, x.Value == nil
+	case *ssa.MakeInterface, *ssa.Alloc, *ssa.MakeClosure, *ssa.MakeMap, *ssa.MakeSlice:
+		return false, true
+	}
+	for i := upto - 1; i >= 0; i-- {
+		cd := p.Conds[i]
+		bo, ok := cd.V.(*ssa.BinOp)
+		if !ok || (bo.Op != token.EQL && bo.Op != token.NEQ) {
+			continue
+		}
+		x, y := p.Resolve(bo.X), p.Resolve(bo.Y)
+		if cx, ok := x.(*ssa.Const); ok && cx.Value == nil && y == v {
+			return cd.Val, true
+		}
+		if cy, ok := y.(*ssa.Const); ok && cy.Value == nil && x == v {
+			return cd.Val, true
+		}
+	}
+	return false, false
+}
+
+// consistent: no nil-test on the path contradicts what is known about its operand from constants or earlier tests (used after inlining, where caller and callee conditions were forked independently).
+func (p *Path) consistent() bool {
+	for i, cd := range p.Conds {
+		bo, ok := cd.V.(*ssa.BinOp)
+		if !ok || (bo.Op != token.EQL && bo.Op != token.NEQ) {
+			continue
+		}
+		var operand ssa.Value
+		if k, ok := bo.Y.(*ssa.Const); ok && k.Value == nil {
+			operand = bo.X
+		} else if k, ok := bo.X.(*ssa.Const); ok && k.Value == nil {
+			operand = bo.Y
+		} else {
+			continue
+		}
+		if isNil, known := p.nilness(operand, i); known && isNil != cd.Val {
+			return false
+		}
+	}
+	return true
 }
 
 // ResolveMem is Resolve, plus: a load of a non-escaping local resolves to the
@@ -128,7 +200,7 @@ func (p *Path) ResolveMem(v ssa.Value) ssa.Value {
 }
 
 // Term renders the canonical term of v with this path's phi choices.
-func (p *Path) Term(v ssa.Value) string { return TermOn(v, p.Phi) }
+func (p *Path) Term(v ssa.Value) string { return TermSubst(v, p.Phi, p.Params) }
 
 // CondVal returns the value this path took for the atom with the given positive term.
 func (p *Path) CondVal(term string) (val, known bool) {
@@ -434,6 +506,9 @@ type PathInstr struct {
 // Instrs lists the instructions along the path in execution order; deferred
 // calls are replayed (LIFO) where the path runs its defers.
 func (p *Path) Instrs() []PathInstr {
+	if p.flat != nil {
+		return p.flat
+	}
 	var out []PathInstr
 	var defers []*ssa.Defer
 	for _, b := range p.Blocks {
@@ -453,6 +528,161 @@ func (p *Path) Instrs() []PathInstr {
 		}
 	}
 	return out
+}
+
+// ExpandInline splices, into each path, the paths of the callees selected by pick (a static callee worth
+// looking into, or nil), recursively up to depth levels. enum enumerates a callee's own paths. Callee parameters are
+// bound to the call's arguments (Path.Params) and the callee's conditions are re-rendered in the caller's terms.
+func ExpandInline(paths []*Path, pick func(*Call) *ssa.Function, enum func(*ssa.Function) ([]*Path, error), depth, maxPaths int) ([]*Path, error) {
+	if depth <= 0 {
+		return paths, nil
+	}
+	if maxPaths == 0 {
+		maxPaths = 200000
+	}
+	cache := map[*ssa.Function][]*Path{}
+	calleePaths := func(g *ssa.Function) ([]*Path, error) {
+		if ps, ok := cache[g]; ok {
+			return ps, nil
+		}
+		cache[g] = nil // recursion guard
+		ps, err := enum(g)
+		if err != nil {
+			return nil, err
+		}
+		ps, err = ExpandInline(ps, pick, enum, depth-1, maxPaths)
+		if err != nil {
+			return nil, err
+		}
+		var rets []*Path
+		for _, q := range ps {
+			if _, ok := q.Exit.(*ssa.Return); ok {
+				rets = append(rets, q)
+			}
+		}
+		cache[g] = rets
+		return rets, nil
+	}
+	type item struct {
+		p    *Path
+		from int // first flat index not yet examined
+	}
+	var out []*Path
+	work := []item{}
+	for _, p := range paths {
+		work = append(work, item{p, 0})
+	}
+	for len(work) > 0 {
+		it := work[len(work)-1]
+		work = work[:len(work)-1]
+		p := it.p
+		flat := p.Instrs()
+		expanded := false
+		for k := it.from; k < len(flat); k++ {
+			pi := flat[k]
+			if _, isDefer := pi.In.(*ssa.Defer); isDefer && !pi.Deferred {
+				continue
+			}
+			if _, isGo := pi.In.(*ssa.Go); isGo {
+				continue
+			}
+			cl := CallOf(pi.In)
+			if cl == nil {
+				continue
+			}
+			g := pick(cl)
+			if g == nil || len(g.Blocks) == 0 {
+				continue
+			}
+			qs, err := calleePaths(g)
+			if err != nil {
+				return nil, err
+			}
+			if len(qs) == 0 {
+				continue
+			}
+			// step of the call in the caller's block sequence
+			step := -1
+			for bi, b := range p.Blocks {
+				if b == pi.In.Block() {
+					step = bi
+					break
+				}
+			}
+			for _, q := range qs {
+				np := &Path{Fn: p.Fn, Blocks: p.Blocks, Exit: p.Exit, Cut: p.Cut, Phi: map[*ssa.Phi]ssa.Value{}, Params: map[*ssa.Parameter]ssa.Value{}, Rets: map[ssa.Value][]ssa.Value{}}
+				for a, b := range p.Rets {
+					np.Rets[a] = b
+				}
+				for a, b := range q.Rets {
+					np.Rets[a] = b
+				}
+				if cv := cl.Value(); cv != nil {
+					if r, ok := q.Exit.(*ssa.Return); ok {
+						var rs []ssa.Value
+						for _, x := range r.Results {
+							rs = append(rs, q.ResolveMem(x))
+						}
+						np.Rets[cv] = rs
+					}
+				}
+				for a, b := range p.Phi {
+					np.Phi[a] = b
+				}
+				for a, b := range q.Phi {
+					np.Phi[a] = b
+				}
+				for a, b := range p.Params {
+					np.Params[a] = b
+				}
+				for a, b := range q.Params {
+					np.Params[a] = b
+				}
+				for i, prm := range g.Params {
+					if i < len(cl.Common.Args) {
+						np.Params[prm] = p.Resolve(cl.Common.Args[i])
+					}
+				}
+				qf := q.Instrs()
+				np.flat = make([]PathInstr, 0, len(flat)+len(qf))
+				np.flat = append(np.flat, flat[:k+1]...)
+				np.flat = append(np.flat, qf...)
+				np.flat = append(np.flat, flat[k+1:]...)
+				// conditions: callee's go where the call sits
+				ins := len(p.Conds)
+				if p.flat == nil && step >= 0 {
+					for ci, cd := range p.Conds {
+						if cd.Step >= step {
+							ins = ci
+							break
+						}
+					}
+				} else if p.flat != nil {
+					ins = len(p.Conds) // already flattened: append (order among callee conditions is not used by rules)
+				}
+				np.Conds = append(np.Conds, p.Conds[:ins]...)
+				for _, cd := range q.Conds {
+					t, neg := splitNeg(TermSubst(cd.V, np.Phi, np.Params))
+					_ = neg
+					np.Conds = append(np.Conds, Cond{Term: t, V: cd.V, Val: cd.Val, At: cd.At, Step: step})
+				}
+				np.Conds = append(np.Conds, p.Conds[ins:]...)
+				if !np.consistent() {
+					continue
+				}
+				if len(out)+len(work) > maxPaths {
+					return nil, fmt.Errorf("more than %d paths after inlining in %s", maxPaths, p.Fn)
+				}
+				work = append(work, item{np, k + 1 + len(qf)})
+			}
+			expanded = true
+			break
+		}
+		if !expanded {
+			out = append(out, p)
+		}
+	}
+	return out, nil
 }
 
 // PathCall is a call executed on a path.
